@@ -141,7 +141,12 @@ class _Message(object):
         source_name = self.source_file or "[prelude]"
         if not self.location.is_synthetic and self.source_file in source_code:
             source_lines = source_code[self.source_file].splitlines()
-            source_line = source_lines[self.location.start.line - 1]
+            # An error at the end of the input (a missing Dedent, say) is located on
+            # the line after the last one, which has no text to show.
+            if self.location.start.line <= len(source_lines):
+                source_line = source_lines[self.location.start.line - 1]
+            else:
+                source_line = ""
         else:
             source_line = ""
         lines = self.message.splitlines()
